@@ -549,7 +549,7 @@ def _robust_gp_fit_(
                 "bads:_robust_gp_fit_: posterior GP update failed. Singular matrix for L Cholesky decomposition"
             )
             success_flag[i_try] = False
-            if i_try > options["remove_points_after_tries"] - 1:
+            if i_try > options["remove_points_after_tries"] - 1 and len(Y) > 1:
                 idx_drop_out = np.zeros(len(Y)).astype(bool)
                 # Remove closest pair sample
                 dist = cdist(X, X)
